@@ -166,6 +166,18 @@ def run(ctx):
         if not rr.violated:
             raise vlib.MachineryError("non-vacuity config %s did not produce a counterexample" % cfg)
 
+    # ---- the oracle's indentation layer (harness reflexer.go) is the specification's: its token
+    # streams on the lexer corpus must be exactly what IndentLexer prescribes (else: machinery)
+    ctx.harness(["lex", "corpus", "--n", 1500 if thorough else 300, "--out", ctx.path("lexin.ndjson")])
+    ctx.harness(["lex", "record", "--in", ctx.path("lexin.ndjson"), "--out", ctx.path("lexref.ndjson"), "--ref", "only"])
+    lt = ctx.tlc("LexTrace", files=[("trace.ndjson", ctx.path("lexref.ndjson"))], workers=1, timeout=1500,
+                 label="LexTrace: the oracle's indentation layer == IndentLexer")
+    lres = lt.printed("RESULT")
+    if not lres or lres[-1]["mis"] or lres[-1]["bad"]:
+        raise vlib.MachineryError("the oracle's reference indentation layer disagrees with IndentLexer: %s"
+                                  % (lres[-1] if lres else lt.tail()))
+    ctx.cover(oracle_indentation_layer_inputs_validated=lres[-1]["inputs"], oracle_indentation_layer_tokens=lres[-1]["tokens"])
+
     # ------------------------------------------------- corpus + real loads
     vlib.write_ndjson(ctx.path("table.ndjson"), rows)
     n = 100000 if thorough else 6000
